@@ -200,6 +200,44 @@ impl Default for Cfg {
 
 static RUN_SEQ: AtomicU64 = AtomicU64::new(0);
 
+/// Sanitizer reports (ASan / TSan / LSan) printed by any pgcat instance of this process:
+/// (kind, summary, first lines of the report). Filled when an instance is dropped.
+pub static SAN_REPORTS: Mutex<Vec<(String, String, Vec<String>)>> = Mutex::new(Vec::new());
+pub static SAN_INSTANCES: AtomicU64 = AtomicU64::new(0);
+
+fn scan_sanitizer(lines: &[(u64, String)]) -> Vec<(String, String, Vec<String>)> {
+    let mut out = vec![];
+    let mut i = 0;
+    while i < lines.len() {
+        let l = &lines[i].1;
+        let kind = if l.contains("ERROR: AddressSanitizer") {
+            Some("asan")
+        } else if l.contains("WARNING: ThreadSanitizer") {
+            Some("tsan")
+        } else if l.contains("ERROR: LeakSanitizer") {
+            Some("lsan")
+        } else {
+            None
+        };
+        if let Some(k) = kind {
+            let block: Vec<String> = lines[i..lines.len().min(i + 60)].iter().map(|x| x.1.clone()).collect();
+            // first frame inside the workspace (pgcat / bb8 / lru / bytes / arc-swap / mini-moka), else SUMMARY
+            let frame = block
+                .iter()
+                .find(|b| b.contains(" in ") && (b.contains("pgcat") || b.contains("bb8") || b.contains("lru") || b.contains("mini_moka") || b.contains("arc_swap") || b.contains("bytes::")))
+                .or_else(|| block.iter().find(|b| b.contains("SUMMARY:")))
+                .cloned()
+                .unwrap_or_default();
+            let func = frame.split(" in ").nth(1).unwrap_or(&frame).split(' ').next().unwrap_or("").to_string();
+            out.push((k.to_string(), func, block.into_iter().take(40).collect()));
+            i += 20;
+        } else {
+            i += 1;
+        }
+    }
+    out
+}
+
 pub fn run_root() -> PathBuf {
     let base = std::env::var("PGV_RUN_DIR").unwrap_or("/verif/run".into());
     let p = PathBuf::from(base).join(format!("{}", std::process::id()));
@@ -308,16 +346,24 @@ impl Pgcat {
         if let Some(j) = &opts.jitter {
             cmd.env("PGCAT_VERIF_JITTER", j);
         }
+        // sanitizer runtimes reserve terabytes of shadow address space: no RLIMIT_AS there
+        let cap_as = std::env::var("PGV_SAN_LEG").is_err();
+        if !cap_as {
+            cmd.env("ASAN_OPTIONS", "detect_leaks=0:halt_on_error=0:abort_on_error=0");
+            cmd.env("TSAN_OPTIONS", "halt_on_error=0:report_signal_unsafe=0");
+        }
         unsafe {
             use std::os::unix::process::CommandExt;
-            cmd.pre_exec(|| {
+            cmd.pre_exec(move || {
                 // die with the harness; cap address space at 8 GiB
                 libc::prctl(libc::PR_SET_PDEATHSIG, libc::SIGKILL);
-                let lim = libc::rlimit {
-                    rlim_cur: 8 << 30,
-                    rlim_max: 8 << 30,
-                };
-                libc::setrlimit(libc::RLIMIT_AS, &lim);
+                if cap_as {
+                    let lim = libc::rlimit {
+                        rlim_cur: 8 << 30,
+                        rlim_max: 8 << 30,
+                    };
+                    libc::setrlimit(libc::RLIMIT_AS, &lim);
+                }
                 Ok(())
             });
         }
@@ -529,6 +575,13 @@ impl Pgcat {
 
 impl Drop for Pgcat {
     fn drop(&mut self) {
+        if std::env::var("PGV_SAN_LEG").is_ok() {
+            SAN_INSTANCES.fetch_add(1, Ordering::SeqCst);
+            let found = scan_sanitizer(&self.lines.lock().unwrap());
+            if !found.is_empty() {
+                SAN_REPORTS.lock().unwrap().extend(found);
+            }
+        }
         if self.alive() {
             let _ = self.child.kill();
         }
